@@ -13,17 +13,21 @@ Import ListNotations.
 Definition ok_inner (An L : list nat) (k1 : skind) (b : nat) (k2 : skind) : bool :=
   if collider k1 k2 then memb b An else memb b L.
 
-(* all admissible continuations from the inner node a (entered by kin) that end in y; [visited] = nodes on the
-   path so far (a included).  Reaching y ends the path (a path is simple, y cannot be an inner node). *)
-Fixpoint ind_from (g : mgraph) (An L : list nat) (y : nat) (fuel : nat) (a : nat) (kin : skind)
+(* the node a was entered by step kind kin (None: a is the start node, nothing to test) and is left by k *)
+Definition ok_at (An L : list nat) (kin : option skind) (a : nat) (k : skind) : bool :=
+  match kin with None => true | Some k1 => ok_inner An L k1 a k end.
+
+(* all admissible continuations from the node a (entered by kin) that end in y; [visited] = nodes on the path so far
+   (a included).  Reaching y ends the path (a path is simple, y cannot be an inner node). *)
+Fixpoint ind_from (g : mgraph) (An L : list nat) (y : nat) (fuel : nat) (a : nat) (kin : option skind)
          (visited : list nat) : list spath :=
   match fuel with
   | 0 => []
   | S f =>
       flat_map (fun s : skind * nat =>
-                  if ok_inner An L kin a (fst s) then
+                  if ok_at An L kin a (fst s) then
                     if Nat.eqb (snd s) y then [[s]]
-                    else map (cons s) (ind_from g An L y f (snd s) (fst s) (snd s :: visited))
+                    else map (cons s) (ind_from g An L y f (snd s) (Some (fst s)) (snd s :: visited))
                   else [])
                (next_steps g a visited)
   end.
@@ -31,11 +35,7 @@ Fixpoint ind_from (g : mgraph) (An L : list nat) (y : nat) (fuel : nat) (a : nat
 Definition ind_anc (g : mgraph) (x y : nat) (S : list nat) : list nat := anc_of g (x :: y :: S).
 
 Definition ind_paths (g : mgraph) (x y : nat) (L S : list nat) : list spath :=
-  let An := ind_anc g x y S in
-  flat_map (fun s : skind * nat =>
-              if Nat.eqb (snd s) y then [[s]]
-              else map (cons s) (ind_from g An L y (length (V g)) (snd s) (fst s) [snd s; x]))
-           (next_steps g x [x]).
+  ind_from g (ind_anc g x y S) L y (Datatypes.S (length (V g))) x None [x].
 
 (* (False, []) when an endpoint is latent or selected (generic.py L577-578) *)
 Definition inducing_model (g : mgraph) (x y : nat) (L S : list nat) : bool * list nat :=
@@ -55,6 +55,10 @@ Fixpoint upairs (l : list nat) : list (nat * nat) :=
   | [] => []
   | a :: t => map (pair a) t ++ upairs t
   end.
+
+(* all ordered pairs (a,b), a <> b, of a list *)
+Definition opairs (l : list nat) : list (nat * nat) :=
+  flat_map (fun a => map (pair a) (filter (fun b => negb (Nat.eqb a b)) l)) l.
 
 (* a in An*({b} u S) *)
 Definition in_an (d : mgraph) (S : list nat) (a b : nat) : bool := memb a (anc_of d (b :: S)).
@@ -84,7 +88,7 @@ Definition spec_adj (d : mgraph) (L S : list nat) (x y : nat) : bool :=
 Definition adjacency_ok (d : mgraph) (L S : list nat) : bool :=
   let m := dag_to_mag_model d L S in
   forallb (fun p => Bool.eqb (adjacent m (fst p) (snd p)) (spec_adj d L S (fst p) (snd p)))
-          (upairs (obs d L S)).
+          (opairs (obs d L S)).
 
 Definition independence_ok (d : mgraph) (L S : list nat) : bool :=
   let m := dag_to_mag_model d L S in
@@ -92,7 +96,7 @@ Definition independence_ok (d : mgraph) (L S : list nat) : bool :=
   forallb (fun p =>
              forallb (fun Z => Bool.eqb (msep_dec m [fst p] [snd p] Z) (dsep_dec d [fst p] [snd p] (Z ++ S)))
                      (sublists (diffb O [fst p; snd p])))
-          (upairs O).
+          (opairs O).
 
 (* ---------------- run_case ----------------
    in : L [I mode; graph; L; S; L [ L [x; y]; ... ]]       mode bit0: graph is a DAG -> also dag_to_mag
